@@ -186,7 +186,7 @@ let class_name = function
   | DNow -> "now" | DLock -> "lock" | DEnded -> "ended" | DBadOp -> "badop"
 
 let monitor_table : (string * (config option -> obs -> event list -> bool)) list = [
-  ("c01", c01_ok); ("c02", c02_ok); ("c03", (fun raw o0 tr -> c03_ok raw o0 tr && c03S_ok raw o0 tr)); ("c04", c04_ok); ("c05", c05_ok);
+  ("c01", c01_ok); ("c02", c02_ok); ("c03", (fun raw o0 tr -> c03_ok raw o0 tr && c03S_ok raw o0 tr && c03X_ok raw o0 tr)); ("c04", c04_ok); ("c05", c05_ok);
   ("c06", c06_ok); ("c07", c07_ok); ("c08", c08_ok); ("c09", (fun raw o0 tr -> c09_ok raw o0 tr && c09D_ok raw o0 tr && c09W_ok raw o0 tr)); ("c20", c20_ok) ]
 
 let first_fail (ok : event list -> bool) (evs : event list) : int =
@@ -284,7 +284,7 @@ let () =
   | None -> ()
   | Some oc ->
       output_string oc "From GV Require Import Pool.Model Pool.Observe Pool.Monitors.\nOpen Scope Z_scope.\n";
-      output_string oc "Definition case_ok (raw : option config) (o0 : obs) (tr : list event) (acc : bool) (vs : list bool) : bool :=\n  Bool.eqb (match accept raw (set_rr init_bal (o_rr o0)) 1%nat tr with None => true | Some _ => false end) acc &&\n  list_eqb Bool.eqb (map (fun pid => monitor pid raw o0 tr) [P01; P02] ++ [monitor P03 raw o0 tr && C03S_ok raw o0 tr] ++ map (fun pid => monitor pid raw o0 tr) [P04; P05; P06; P07; P08] ++ [monitor P09 raw o0 tr && C09D_ok raw o0 tr && C09W_ok raw o0 tr; monitor P20 raw o0 tr]) vs.\n";
+      output_string oc "Definition case_ok (raw : option config) (o0 : obs) (tr : list event) (acc : bool) (vs : list bool) : bool :=\n  Bool.eqb (match accept raw (set_rr init_bal (o_rr o0)) 1%nat tr with None => true | Some _ => false end) acc &&\n  list_eqb Bool.eqb (map (fun pid => monitor pid raw o0 tr) [P01; P02] ++ [monitor P03 raw o0 tr && C03S_ok raw o0 tr && C03X_ok raw o0 tr] ++ map (fun pid => monitor pid raw o0 tr) [P04; P05; P06; P07; P08] ++ [monitor P09 raw o0 tr && C09D_ok raw o0 tr && C09W_ok raw o0 tr; monitor P20 raw o0 tr]) vs.\n";
       List.iteri (fun i (h, o0, acc, vs) ->
         Printf.fprintf oc "Definition case_%d : bool := case_ok %s %s %s %s %s.\n" i
           (copt cconfig h.h_raw) (cobs o0) (clist cev h.h_events) (cbool acc) (clist cbool vs)) (List.rev !coq_cases);
